@@ -24,7 +24,7 @@ from feems.fuel import Fuel, FuelSpecifiedBy, TypeFuel, FuelOrigin
 from feems.types_for_feems import EmissionType
 
 THEOREMS = ["engine", "pilot", "zero", "nonneg", "constant_curve", "genset", "geared", "fuel_cell", "modules_linear", "modules",
-            "geared_legacy_wrong_load", "cogas_point", "cogas_follows_split_curves", "legacy_share_off_curve", "legacy_cogas_gas_is_ratio", "running_hours_cons", "running_hours_idle", "running_hours_always"]
+            "geared_legacy_wrong_load", "geared_bidirectional", "geared_reverse_legacy_creates_energy", "cogas_point", "cogas_follows_split_curves", "legacy_share_off_curve", "legacy_cogas_gas_is_ratio", "running_hours_cons", "running_hours_idle", "running_hours_always"]
 DEPENDS_ON_MODULES = ["FeemsProofs.C06"]
 
 
